@@ -481,9 +481,20 @@ class KernelPCovR(_BasePCA, LinearModel):
         K_VV = self._get_kernel(X)
 
         if self.center:
+            # centre K_VV in feature space with the training mean: the centerer's
+            # transform expects the columns to be the training samples, which only
+            # holds for K_VV when the scored set is the training set
+            K_VN_mean = np.average(
+                K_VN, weights=self.centerer_.sample_weight_, axis=1
+            )
+            K_VV = (
+                K_VV
+                - K_VN_mean[:, np.newaxis]
+                - K_VN_mean[np.newaxis, :]
+                + self.centerer_.K_fit_all_
+            ) / self.centerer_.scale_
             K_NN = self.centerer_.transform(K_NN)
             K_VN = self.centerer_.transform(K_VN)
-            K_VV = self.centerer_.transform(K_VV)
 
         y = K_VN @ self.pky_
         Lkrr = np.linalg.norm(Y - y) ** 2 / np.linalg.norm(Y) ** 2
